@@ -26,7 +26,7 @@ ASSUMPTIONS = ['floats compared to 1e-6 relative (the mirrored optimiser traject
                'residual_mean on the scale of residual_std', 'island polarity class decided from the image with the forced '
                'rms by aegmon/refs/floodfill.py']
 MIN_REACH = {'source_finder:SourceFinder.find_sources_in_image': 1}
-MIN_COUNTERS = {'quantised_images': 3, 'pixels_exactly_on_a_clip_level': 20, 'reused_finder_runs': 50, 'island_rows_compared_sign_symmetry': 30, 'rows_compared_sign_symmetry': 50, 'filter_sets_checked': 5, 'single_polarity_islands_compared': 20}
+MIN_COUNTERS = {'fields_with_a_noise_map_gradient': 3, 'quantised_images': 3, 'pixels_exactly_on_a_clip_level': 20, 'reused_finder_runs': 50, 'island_rows_compared_sign_symmetry': 30, 'rows_compared_sign_symmetry': 50, 'filter_sets_checked': 5, 'single_polarity_islands_compared': 20}
 BATCHES_PER_JOB = 2
 KEY_MIXED = 'mixed-polarity-island'
 FLOATS = ['ra', 'dec', 'a', 'b', 'pa', 'err_ra', 'err_dec', 'err_peak_flux', 'err_int_flux', 'err_a', 'err_b', 'err_pa',
@@ -62,6 +62,9 @@ def cases(seed, tier):
             spec['sources'] += extra
         out.append({'kind': 'field', 'field': spec, 'aux': 'files' if i % 2 else 'forced', 'docov': bool(rng.random() < 0.6),
                     'mixed_stratum': mixed, 'bkg_gradient': [float(rng.uniform(-0.01, 0.01)), float(rng.uniform(-0.01, 0.01)), float(rng.uniform(-2, 2))]})
+        if i % 4 == 1:
+            out[-1]['rms_gradient'] = [float(rng.uniform(-0.002, 0.002)), float(rng.uniform(-0.002, 0.002))]
+            out[-1]['aux'] = 'files'
         if i % 5 == 3:
             out[-1]['quantised'] = True
             out[-1]['aux'] = 'forced'
@@ -124,6 +127,11 @@ def run(case):
         if case['aux'] == 'files':
             bkg = (g0 + gy * yy + gx * xx).astype(np.float32)
             rms = np.ones_like(bkg) * np.float32(1.0)
+            if case.get('rms_gradient'):
+                # a noise map that changes across the field (and so across every island): the same map serves the image
+                # and its negation
+                rms = (1.0 + case['rms_gradient'][0] * (yy - rows / 2.0) + case['rms_gradient'][1] * (xx - cols / 2.0)).astype(np.float32)
+                o.count('fields_with_a_noise_map_gradient')
             data = data + bkg
             for name, arr in (('rms', rms), ('bkg', bkg), ('nbkg', -bkg)):
                 fits.PrimaryHDU(arr, header=h).writeto(os.path.join(sc, name + '.fits'), overwrite=True)
@@ -153,13 +161,15 @@ def run(case):
                                          lambda n, k=1: o.count('catalogue_invariant_' + n, k), ctx)
         # ---- polarity class of every island, from the image itself
         sub = (data.astype(np.float32).astype(np.float64) - (bkg.astype(np.float64) if case['aux'] == 'files' else 0.0))
-        snr = floodfill.snr_image(sub, 0.0, 1.0)
+        snr = floodfill.snr_image(sub, 0.0, rms.astype(np.float64) if (case['aux'] == 'files' and case.get('rms_gradient')) else 1.0)
         oracle, _ = floodfill.islands_from_snr(snr, 5.0, 4.0)
         box = {}
         size = {}
         for isl in oracle:
             (r0, r1), (c0, c1) = floodfill.tight_box(isl)
             vals = np.array([sub[p] for p in isl])
+            if case['aux'] == 'files' and case.get('rms_gradient'):
+                vals = vals / np.array([float(rms[p]) for p in isl])
             box[(r0, r1, c0, c1)] = bool((vals >= 4.0).any() and (vals <= -4.0).any())
             size[(r0, r1, c0, c1)] = len(isl)
         mixed_a = {k: box.get(tuple(v)) for k, v in ia.items()}
